@@ -232,7 +232,7 @@ def shard(arg):
     return st
 
 
-HN = ('a', 'b', 'c', 'd', 'e')
+HN = ('a', 'b', 'self', 'd', 'e')      # (a parameter may well be called self)
 
 
 def st_case():
